@@ -60,6 +60,9 @@ class Report:
         self.known_hits = {}
         self.parts = {}
         self._distinct = set()
+        import glob as _g
+        for f in _g.glob(os.path.join(EVID, "replay", f"{pid}_*.json")):
+            os.remove(f)
         kf = load_known_findings()
         self.known = {f["key"]: f for f in kf.get("findings", []) if f.get("property") == pid}
 
